@@ -131,6 +131,11 @@ def rnum(rng, lo=1, hi=999):
 def tagged_values(rng, side):
     base = 100 if side == "s" else 500
     n = rng.choice([1, 1, 2, 3, 3, 24])   # 24 events: a text of several hundred characters
+    if rng.random() < 0.08:
+        # a negative or zero tempo among the BPMS (they count for the displayed minimum like any other value)
+        vals = [base + rng.randint(0, 399), rng.choice([-960, -1, 0, -base]), base + rng.randint(0, 399)]
+        rng.shuffle(vals)
+        return dict(_tv_rest(rng, base), BPMS=",".join(f"{4 * i}.000={v}.000" for i, v in enumerate(vals[: rng.choice([2, 3])])))
     if rng.random() < 0.12:
         # two or three BPM entries written for one and the same beat (each counts for the displayed range)
         vals = [base + rng.randint(0, 399) for _ in range(rng.choice([2, 3]))]
